@@ -706,7 +706,7 @@ class Object(base.Symbolic, metaclass=ObjectMeta):
     self._set_raw_attr(
         '_sym_attributes',
         pg_dict.Dict(
-            field_args,
+            _copy_repeated_symbolic_args(field_args),
             value_spec=self.__class__.sym_fields,
             allow_partial=allow_partial,
             sealed=sealed,
@@ -1003,6 +1003,40 @@ class Object(base.Symbolic, metaclass=ObjectMeta):
 
 
 base.Symbolic.ObjectType = Object
+
+
+def _copy_repeated_symbolic_args(field_args: Dict[str, Any]) -> Dict[str, Any]:
+  """Copies symbolic values that are passed to `__init__` more than once.
+
+  NOTE: the field values of an object learn about their parent only at the end
+  of its `__init__`. Until then a value that has been stored for one field still
+  looks detached, so the same value passed for another field (directly or
+  within a plain list/dict) would be stored a second time instead of being
+  copied, e.g. `A(x=v, y=v)` or `A(x=v, y=[v])`.
+
+  Args:
+    field_args: Field name to value.
+
+  Returns:
+    `field_args` with the repeated occurrences of detached symbolic values
+    replaced by copies.
+  """
+  seen = set()
+
+  def _visit(v):
+    if isinstance(v, base.Symbolic):
+      if v.sym_parent is None:
+        if id(v) in seen:
+          return v.clone()
+        seen.add(id(v))
+      return v
+    if isinstance(v, list):
+      return [_visit(x) for x in v]
+    if isinstance(v, dict):
+      return {k: _visit(x) for k, x in v.items()}
+    return v
+
+  return {k: _visit(v) for k, v in field_args.items()}
 
 
 def members(
